@@ -171,6 +171,14 @@ def wrap(ir, pos, t):
     raise KeyError(pos)
 
 
+def swift_override(ir):
+    """(round n) decorators of a field that carries `#[typeshare(swift(type = "Ovr"))]`: an override for ONE language says nothing
+    about the others, so the field's Rust type still orders the definitions (the native replay generates TypeScript)"""
+    L = ir.L if hasattr(ir, "L") else ir.layout
+    key = EnumV("language::SupportedLanguage", L.enums["SupportedLanguage"].index("Swift"), [])
+    return RMap("HashMap", [[key, RMap("BTreeSet", [[L.make_adt("rust_types::FieldDecorator::NameValue", [S("type"), S("Ovr")], None), UNIT]])]])
+
+
 def build_items(ir, kinds, slots, targets):
     """kinds[i] in struct/enum/alias/const; slots[i] = list of position kinds; targets[i][s] = char term"""
     items = []
@@ -181,14 +189,14 @@ def build_items(ir, kinds, slots, targets):
             t = ir.simple(RString([targets[i][s]]))
             refs.append((pos, wrap(ir, pos, t)))
         if kind in ("struct", "rstruct"):
-            fields = [ir.field("f%d" % k, ty) for k, (pos, ty) in enumerate(refs)]
+            fields = [ir.field("f%d" % k, ty, decorators=swift_override(ir) if k == 0 else None) for k, (pos, ty) in enumerate(refs)]
             # rstruct: serde-renamed (emitted as R<name>); references inside types always carry the Rust name
             items.append(ir.item("Struct", ir.struct(name, fields, renamed=("R" + name) if kind == "rstruct" else None, serde_rename=(kind == "rstruct") or None)))
         elif kind == "enum":
             vs = [ir.v_unit("U")]
             for k, (pos, ty) in enumerate(refs):
                 if pos == "struct_variant_field":
-                    vs.append(ir.v_anon("S%d" % k, [ir.field("x", ty)]))
+                    vs.append(ir.v_anon("S%d" % k, [ir.field("x", ty, decorators=swift_override(ir))]))
                 else:
                     vs.append(ir.v_tuple("T%d" % k, ty))
             items.append(ir.item("Enum", ir.enum_alg(name, vs)))
@@ -356,13 +364,13 @@ def render_source(case):
         nm = "G" if k == "gstruct" else NAMES[i]
         refs = [ty(p, targets[i][s]) for s, p in enumerate(slots[i])]
         if k in ("struct", "rstruct"):
-            out.append("#[typeshare]\n%spub struct %s { %s }" % ('#[serde(rename = "R%s")]\n' % nm if k == "rstruct" else "", nm, ", ".join("pub f%d: %s" % (j, r) for j, r in enumerate(refs))))
+            out.append("#[typeshare]\n%spub struct %s { %s }" % ('#[serde(rename = "R%s")]\n' % nm if k == "rstruct" else "", nm, ", ".join("%spub f%d: %s" % ('#[typeshare(swift(type = "Ovr"))] ' if j == 0 else "", j, r) for j, r in enumerate(refs))))
         elif k == "gstruct":
             out.append("#[typeshare]\npub struct G<T> { pub v: T, %s }" % ", ".join("pub f%d: %s" % (j, r) for j, r in enumerate(refs)))
         elif k == "enum":
             vs = ["U"]
             for j, r in enumerate(refs):
-                vs.append(("S%d { x: %s }" % (j, r)) if slots[i][j] == "struct_variant_field" else "T%d(%s)" % (j, r))
+                vs.append(('S%d { #[typeshare(swift(type = "Ovr"))] x: %s }' % (j, r)) if slots[i][j] == "struct_variant_field" else "T%d(%s)" % (j, r))
             out.append('#[typeshare]\n#[serde(tag = "type", content = "content")]\npub enum %s { %s }' % (nm, ", ".join(vs)))
         elif k == "alias":
             out.append("#[typeshare]\npub type %s = %s;" % (nm, refs[0] if refs else "String"))
